@@ -1,5 +1,6 @@
 from __future__ import annotations
 
+import itertools
 from dataclasses import dataclass, field
 
 from typing_extensions import (
@@ -139,10 +140,20 @@ class HashedIterable(Generic[T]):
 
         :return: An iterator over the hashed values.
         """
-        yield from self.values.values()
-        for v in self.iterable:
-            self.values[v.id_] = v
-            yield v
+        position = 0
+        while True:
+            if position < len(self.values):
+                # values seen so far, including those another live iterator has pulled in the meantime
+                for v in list(itertools.islice(self.values.values(), position, None)):
+                    position += 1
+                    yield v
+                continue
+            for v in self.iterable:
+                if v.id_ not in self.values:
+                    self.values[v.id_] = v
+                    break
+            else:
+                return
 
     def __or__(self, other) -> HashedIterable[T]:
         return self.union(other)
